@@ -2491,6 +2491,7 @@ def demoOpq : V2.Opq :=
     nkeys_IsValidPublicServerKey := fun _ => false, time_Parse := fun _ _ => false, net_ParseCIDR := fun _ => false,
     time_LoadLocation := fun _ => false, nkeys_IsValidPublicOperatorKey := fun _ => false,
     UserClaims_HasEmptyPermissions := fun _ => some true,
+    json_Unmarshalanon_GenericClaims_GenericFields := fun _ g => (g, true),
     nkeys_FromPublicKey := fun _ => some 7, nkeys_Prefix := fun _ => 0,
     nkeys_Decode := fun _ _ => some (List.replicate 32 0),
     KeyPair_Verify := fun _ text _ => !(text == strBytes "a.b".toList),
@@ -3071,5 +3072,98 @@ theorem v2_skKeys (sk : GoMap Str (Option V2.I_Scope)) :
     | nil => intro ks; simp
     | cons e es ih => intro ks; simp [ih]
   simp [V2.SigningKeys_Keys, forRange, forRangeFrom_fold _ _ hb, hf]
+
+/-! ## C01: `DecodeGeneric`, as translated
+
+The generic reader has its own copy of the verification logic (it does not go through `Decode`): the header algorithm
+alone tells which text was signed. Values of the free-form data map are not modelled (only which keys are present). -/
+
+/-- **`DecodeGeneric` accepts only authentic tokens (translated code).** Claims come back only if the token had three
+chunks, the header passed `parseHeaders`, payload and signature decoded, the reader filled its struct without error,
+and `ClaimsData.verify` of *that struct's own standard fields* accepted the signature over `p` when the header names the
+legacy algorithm and over `hd.p` otherwise; the standard fields returned are the ones that were verified. -/
+theorem gen_decodeGeneric_accepts (opq : V2.Opq) (tok : Str) (g : V2.T_GenericClaims)
+    (h : V2.DecodeGeneric tok opq = some (some g, false)) :
+    ∃ hd p s hdr data sig gc,
+      splitOn '.' tok = [hd, p, s] ∧
+      V2.parseHeaders hd opq = some (some hdr, false) ∧
+      opq.decodeString p = some (data, false) ∧
+      opq.json_Unmarshalanon_GenericClaims_GenericFields data
+        { f_GenericClaims := default, f_GenericFields := default } = (gc, false) ∧
+      opq.decodeString s = some (sig, false) ∧
+      V2.ClaimsData_verify gc.f_GenericClaims.f_ClaimsData
+        (if hdr.f_Algorithm = "ed25519".toList then p else hd ++ '.' :: p) sig opq = some true ∧
+      g.f_ClaimsData = gc.f_GenericClaims.f_ClaimsData := by
+  unfold V2.DecodeGeneric at h
+  have hs : GoRt.split tok ['.'] = splitOn '.' tok := rfl
+  simp only [hs] at h
+  rcases hsp : splitOn '.' tok with _ | ⟨hd, _ | ⟨p, _ | ⟨s, _ | ⟨d, l⟩⟩⟩⟩
+  · simp [hsp, len] at h
+  · simp [hsp, len] at h
+  · simp [hsp, len] at h
+  · have i0 : idx [hd, p, s] 0 = some hd := rfl
+    have i1 : idx [hd, p, s] 1 = some p := rfl
+    have i2 : idx [hd, p, s] 2 = some s := rfl
+    have h3 : ((((0 : Nat) + 1 + 1 + 1 : Nat) : Int) != 3) = false := by decide
+    simp only [hsp, len, List.length_cons, List.length_nil, i0, i1, i2, h3, Option.pure_def, Option.bind_eq_bind,
+      Option.bind_some, Bool.false_eq_true, if_false] at h
+    rcases hph : V2.parseHeaders hd opq with _ | ⟨hdr, e1⟩
+    · simp [hph] at h
+    cases e1
+    case true => simp [hph] at h
+    rcases hdp : opq.decodeString p with _ | ⟨data, e2⟩
+    · simp [hph, hdp] at h
+    cases e2
+    case true => simp [hph, hdp] at h
+    rcases hu : opq.json_Unmarshalanon_GenericClaims_GenericFields data
+        { f_GenericClaims := default, f_GenericFields := default } with ⟨gc, e3⟩
+    cases e3
+    case true => simp [hph, hdp, hu] at h
+    rcases hds : opq.decodeString s with _ | ⟨sig, e4⟩
+    · simp [hph, hdp, hu, hds] at h
+    cases e4
+    case true => simp [hph, hdp, hu, hds] at h
+    simp only [hph, hdp, hu, hds, Option.bind_some, Bool.false_eq_true, if_false] at h
+    cases hdr with
+    | none => simp at h
+    | some hh =>
+      have hslice : strSliceTo tok (strLen hd + strLen p + 1) = some (hd ++ '.' :: p) := by
+        have ht := token_of_chunks tok hd p s hsp
+        have hlen : strLen hd + strLen p + 1 = strLen (hd ++ '.' :: p) := by
+          simp [strLen, utf8Len, utf8Width]; omega
+        rw [hlen]
+        conv => lhs; rw [ht]
+        exact strSliceTo_prefix _ _
+      have e : ("ed25519".toList : Str) = ['e', 'd', '2', '5', '5', '1', '9'] := by decide
+      simp only [Option.bind_some, hslice] at h
+      by_cases ha : hh.f_Algorithm = ['e', 'd', '2', '5', '5', '1', '9']
+      · simp only [ha, beq_self_eq_true, if_true, Option.bind_some] at h
+        rcases hv : V2.ClaimsData_verify gc.f_GenericClaims.f_ClaimsData p sig opq with _ | ok
+        · rw [v2_verify] at hv; cases hv
+        cases ok
+        case false => simp [hv] at h
+        simp only [hv, Option.bind_some, Bool.not_true, Bool.false_eq_true, if_false] at h
+        refine ⟨hd, p, s, hh, data, sig, gc, rfl, hph, hdp, hu, hds, ?_, ?_⟩
+        · simp only [e, ha, if_true]; exact hv
+        · -- the data map may have been touched; the standard fields were not
+          revert h
+          cases hD : gc.f_GenericClaims.f_Data <;>
+            by_cases h2 : gc.f_GenericFields.f_Type = [] <;>
+            by_cases h3' : gc.f_GenericFields.f_Tags = [] <;>
+            simp [hD, h2, h3', mapSet, len, bne] <;>
+            (intro h; cases h; rfl)
+      · have ha' : (hh.f_Algorithm == ['e', 'd', '2', '5', '5', '1', '9']) = false := by simpa using ha
+        simp only [ha', Bool.false_eq_true, if_false, Option.bind_some] at h
+        rcases hv : V2.ClaimsData_verify gc.f_GenericClaims.f_ClaimsData (hd ++ '.' :: p) sig opq with _ | ok
+        · rw [v2_verify] at hv; cases hv
+        cases ok
+        case false => simp [hv] at h
+        simp only [hv, Option.bind_some, Bool.not_true, Bool.false_eq_true, if_false] at h
+        simp only [Option.some.injEq, Prod.mk.injEq, and_true] at h
+        refine ⟨hd, p, s, hh, data, sig, gc, rfl, hph, hdp, hu, hds, ?_, ?_⟩
+        · simp only [e, ha, if_false]; exact hv
+        · rw [← h]
+  · have hl : ¬ ((l.length : Int) + 1 + 1 + 1 + 1 = 3) := by omega
+    simp [hsp, len, hl] at h
 
 end Jwt.FnTie
